@@ -279,6 +279,36 @@ class Scn:
         data = SBytes.of(data)
         return self._htrait("hwrite_all", "Write", "write_all", h, dict(data=data), BytesRef(data), api=api)
 
+    def hwrite_cancel(self, h, data):
+        """async only: start write_all, poll it once, then drop the future (cancellation while the
+        blocking job may still be in flight)."""
+        from .models.asyncrt import WriteAllFut, poll_any, mk_pin, CX
+        data = SBytes.of(data)
+        self.env.begin_op("hwrite_cancel")
+        try:
+            fut = WriteAllFut(self._href(h), data)
+            cell = Cell(fut)
+            r = poll_any(self.s.I, mk_pin(Ref(CellLoc(cell), True)), CX)
+            out = Outcome("ok", r.vname == "Ready")
+            self.s.I.drop_value(fut)
+        except RustPanic as e:
+            out = Outcome("panic", None, e.msg)
+        except Hang as e:
+            out = Outcome("hang", None, str(e))
+        return self._record("hwrite_cancel", "async", dict(h=h, data=data), out)
+
+    def quiesce(self):
+        """Let every detached background job of the async runtime finish."""
+        rt = getattr(self.env, "runtime", None)
+        self.env.begin_op("quiesce")
+        try:
+            if rt is not None:
+                rt.quiesce(self.s.I)
+            out = Outcome("ok", UNIT)
+        except RustPanic as e:
+            out = Outcome("panic", None, e.msg)
+        return self._record("quiesce", self.api, {}, out)
+
     def hflush(self, h, api=None):
         return self._htrait("hflush", "Write", "flush", h, {}, api=api)
 
